@@ -326,6 +326,30 @@ class Ctx:
         memo[key] = out
         return out
 
+    def closure_aggs(self, entry, adt_name, depth=6, crates=None):
+        """[(view, rvalue, line)] for every construction of the ADT anywhere under `entry`."""
+        out = []
+        seen = set()
+        for raw in self.closure_fns(entry, depth, crates):
+            if not any(a == adt_name for h in raw.family() for (a, _v) in h.aggs):
+                continue
+            v = self.view(raw)
+            for g in v.family():
+                for bi, b in enumerate(g.body.blocks):
+                    if b.cleanup:
+                        continue
+                    for (ln, pl, rv) in b.stmts:
+                        if rv[0] == 'agg' and rv[2] == adt_name:
+                            k = (getattr(g, '_orig', g).name, ln, bi)
+                            if k not in seen:
+                                seen.add(k)
+                                out.append((g, rv, ln))
+        return out
+
+    def deep(self, entry, g, operand, mode=True, up=4, depth=6, crates=None):
+        """deep_origins restricted to callers under `entry`"""
+        return deep_origins(self.ws, g, operand, mode, depth=up, within=self.within(entry, depth, crates))
+
     def sink_arg(self, clause, entry, callee_pats, argi, require=(), forbid=(), desc='', key=None, mode=True, up=4, min_sites=1, depth=6, crates=None,
                  require_via=(), forbid_via=()):
         """Every call of the sink anywhere under `entry`: argument `argi`, traced through helper parameters up to the callers,
@@ -391,14 +415,8 @@ class Ctx:
             for c in body.calls():
                 if g.name in closure_args(body, c) and any(n.endswith(('::try_for_each', '::all')) for n in c.names()):
                     sites += 1
-                    tr = track_result(body, c.dest[0], +1)
-                    edges |= tr.success_edges
-                    if tr.returned:
-                        # returned as is (tail expression, possibly through result adapters): its success IS the function's
-                        edges.add((c.bb, c.target))
-                        for c2 in body.calls():
-                            if c2.dest[0] in body.ret_carriers() and not c2.dest[1] and c2.target is not None:
-                                edges.add((c2.bb, c2.target))
+                    from engine import gating_edges
+                    edges |= gating_edges(body, c.dest[0], +1, success)[0]
             if not sites:
                 continue
             if success_reachable(body, edges, success, ret_filter=ret_filter):
@@ -858,6 +876,23 @@ class Ctx:
         inst = '%s: success requires %s == %s %s' % (fn_short(f.name), field_origin.split(':', 1)[-1], 'false' if want_false else 'true', desc)
         k = key or ('flag:%s:%s' % (fn_short(f.name), field_origin.split(':', 1)[-1]))
         if not n:
+            # the test may have been moved into a helper (possibly async): helpers under the entry whose own success requires the
+            # flag value, and which the entry must pass successfully
+            ests = []
+            for h in self.closure_fns(f, depth=3):
+                if h is getattr(f, '_orig', f).root():
+                    continue
+                hv = self.view(h)
+                ok_h = self._flag_gate_quiet(hv, tyname, fld, want_false)
+                if ok_h:
+                    ests.append(h)
+            if ests:
+                r = self.mpt.enforces(f, Sink('%s test' % fld, [e.name for e in ests], 'ok'), success, ret_filter=ret_filter)
+                if r.holds:
+                    self.report.ok(clause, 'R1', inst, 'tested in %s, which the entry passes successfully' % [fn_short(e.name) for e in ests], f.loc())
+                    return True
+                self.report.violation(clause, 'R1', inst, k, 'the flag is tested in %s but: %s' % ([fn_short(e.name) for e in ests], ' | '.join(r.problems)[:600]), f.loc())
+                return False
             self.report.violation(clause, 'R1', inst, k, 'the flag is never tested', f.loc())
             return False
         if success_reachable(body, edges, success, ret_filter=ret_filter):
@@ -866,6 +901,26 @@ class Ctx:
         self.report.ok(clause, 'R1', inst, '%d test(s)' % n, f.loc())
         return True
 
+
+    def _flag_gate_quiet(self, f, tyname, fld, want_false):
+        lf = f.logic()
+        body = lf.body
+        success = {'result': 'ok', 'option': 'some', 'bool': 'true'}.get(ty_class(lf.ret))
+        if success is None:
+            return False
+        flag_locals = set()
+        for b in body.blocks:
+            if b.cleanup:
+                continue
+            for (_, pl, rv) in b.stmts:
+                for (l, place) in __import__('core').rvalue_reads(rv):
+                    for pe in place[1]:
+                        if isinstance(pe, tuple) and pe[0] == 'f' and pe[2] == fld and pe[3] and glob_match(tyname, pe[3].rsplit('::', 1)[-1]) and not pl[1]:
+                            flag_locals.add(pl[0])
+        edges = set()
+        for l in flag_locals:
+            edges |= track_result(body, l, -1 if want_false else +1, 'bool').success_edges
+        return bool(edges) and not success_reachable(body, edges, success)
 
     # ---- embedded SQL conditions (string constants handed to WhereCondition::new)
     def sql_conditions(self, f):
